@@ -131,16 +131,29 @@ func (w *world) goValue(g sx.S) interface{} {
 		for _, x := range l[1:] {
 			v := w.goValue(x)
 			items = append(items, v)
-			if v == nil || reflect.TypeOf(v) != reflect.TypeOf(items[0]) {
+		}
+		// one Go type for all members that are there; nil members become nil pointers of that type
+		var et reflect.Type
+		for _, v := range items {
+			if v == nil {
+				continue
+			}
+			if et == nil {
+				et = reflect.TypeOf(v)
+			} else if reflect.TypeOf(v) != et {
 				same = false
 			}
 		}
-		if !same {
+		if !same || et == nil || et.Kind() != reflect.Ptr {
 			return items
 		}
-		sl := reflect.MakeSlice(reflect.SliceOf(reflect.TypeOf(items[0])), 0, len(items))
+		sl := reflect.MakeSlice(reflect.SliceOf(et), 0, len(items))
 		for _, v := range items {
-			sl = reflect.Append(sl, reflect.ValueOf(v))
+			if v == nil {
+				sl = reflect.Append(sl, reflect.Zero(et))
+			} else {
+				sl = reflect.Append(sl, reflect.ValueOf(v))
+			}
 		}
 		return sl.Interface()
 	case "tstrs":
@@ -639,7 +652,14 @@ func selText(b *strings.Builder, s sx.S, order *[]int) {
 		if a, ok := l[2].(string); ok && a != "-" {
 			b.WriteString(" on ")
 			noteOffset(b)
-			b.WriteString(typeName(sx.Int(l[2])))
+			switch a {
+			case "98":
+				b.WriteString("skip") // the name of a directive where a type is expected
+			case "97":
+				b.WriteString("[T99]") // a list of an undefined type
+			default:
+				b.WriteString(typeName(sx.Int(l[2])))
+			}
 		} else if docOffsets != nil {
 			*docOffsets = append(*docOffsets, b.Len()+1)
 		}
@@ -801,9 +821,14 @@ func canonData(v interface{}) sx.S {
 		return out
 	}
 	if rv := reflect.ValueOf(v); rv.IsValid() && rv.Kind() == reflect.Slice {
-		// any other typed slice that reached "data" unconverted
+		// any other typed slice that reached "data" unconverted: its members are the application's own
+		// (a nil pointer among them is the null member of that list)
 		out := []sx.S{"l"}
 		for i := 0; i < rv.Len(); i++ {
+			if e := rv.Index(i); e.Kind() == reflect.Ptr && e.IsNil() {
+				out = append(out, "null")
+				continue
+			}
 			out = append(out, canonData(rv.Index(i).Interface()))
 		}
 		return out
@@ -992,6 +1017,9 @@ func execSetup(secs []sx.S) (*ggql.Root, *world, sx.S) {
 	return root, w, nil
 }
 
+// execUnbind: the object type execSetup leaves unbound (C07: a union member ggql cannot tell the Go type of)
+var execUnbind = -1
+
 // execLateBinding: execSetup leaves the object types unbound (the late-binding leg registers them
 // after a first request has run)
 var execLateBinding bool
@@ -1000,6 +1028,9 @@ func execRegisterAll(root *ggql.Root, w *world, types []sx.S) error {
 	for _, t := range types {
 		if sx.Head(t) == "obj" {
 			id := sx.Int(sx.List(t)[1])
+			if id == execUnbind {
+				continue
+			}
 			r, ok := w.strat[id]
 			if !ok {
 				r = true
